@@ -9,7 +9,8 @@ H("c18_resource", "C18", "seq", ["harness/c18_resource.cc"], sdk=["common", "ver
        "real Resource::Create per environment assignment in a child forked inside the execution (the detector result is cached in a static) x user attributes x schema against defaults (+) env (+) user + service.name fallback",
   design_ref="5/C18")
 H("c18_providers", "C18", "seq", ["harness/c18_providers.cc"], sdk=["common", "version", "resource", "trace", "logs", "metrics"],
-  what="real TracerProvider / LoggerProvider / MeterProvider x construction path (constructor, factory, context) x 4 resources x 1-2 scopes x 1-2 items with simple processors, "
+  what="real TracerProvider / LoggerProvider / MeterProvider x construction path (constructor, factory, context; constructor / factory with the defaulted resource; two processors / readers; "
+       "a processor / reader added after telemetry was emitted) x 4 resources x 1-2 scopes x 1-2 items with simple processors, "
        "harness exporters over the real SpanData / ReadWriteLogRecord and a harness MetricReader: every exported item references (pointer and value) its provider's resource; "
        "sdk Provider::Set*Provider installs the provider iff OTEL_SDK_DISABLED is not (case-insensitively) 'true', over 9 values of the variable",
   design_ref="5/C18")
